@@ -1,10 +1,10 @@
 SPECIFICATION Spec
 CONSTANTS
-  Cons <- BindDeep
+  Cons <- ExprReduced
   Terms = {"semi"}
-  MaxE = 0
+  MaxE = 4
   MaxS = 1
-  MaxX = 3
+  MaxX = 0
   MaxP = 0
   MaxL = 0
   MaxTop = 1
